@@ -25,6 +25,7 @@ class Acc:
         self.inconclusive_notes = []
         self.counters = {}
         self.sets = {}               # name -> set of hashable (distinct things seen)
+        self.context = {}            # merged into the case of every violation (e.g. {"trace_logging": True} for a shard run with RUST_LOG)
 
     def count(self, key, n=1):
         self.counters[key] = self.counters.get(key, 0) + n
@@ -42,6 +43,8 @@ class Acc:
     def violate(self, sig, what, case):
         self.violation_count += 1
         if len(self.violations) < 400:
+            if self.context and isinstance(case, dict):
+                case = dict(self.context, **case)
             self.violations.append({"sig": sig, "what": what, "case": case})
 
     def inconc(self, note):
